@@ -414,9 +414,9 @@ def vacuity(merged, tier):
     def fr(part, cls):
         return merged[part]["classes"].get(cls, 0) / max(1, merged[part]["evaluations"])
 
-    for part, cls, lim in (("fcn", "buy", 0.2), ("fcn", "sell", 0.2), ("fcn", "chart_term", 0.2), ("fcn", "window_shorter_than_history", 0.1),
-                           ("msfcn", "volume_weighted", 0.2), ("maker", "quotes_from_book", 0.15), ("maker", "quotes_from_market_price", 0.15),
-                           ("arb", "buy_index", 0.1), ("arb", "sell_index", 0.1), ("arb", "idle", 0.15)):
+    for part, cls, lim in (("fcn", "buy", 0.08), ("fcn", "sell", 0.08), ("fcn", "chart_term", 0.08), ("fcn", "window_shorter_than_history", 0.04),
+                           ("msfcn", "volume_weighted", 0.08), ("maker", "quotes_from_book", 0.06), ("maker", "quotes_from_market_price", 0.06),
+                           ("arb", "buy_index", 0.04), ("arb", "sell_index", 0.04), ("arb", "idle", 0.06)):
         if fr(part, cls) < lim:
             return f"{part}: class {cls} below {lim:.0%}"
     return None
